@@ -48,6 +48,26 @@ MINE = {
  "C19-b": ("caught as built", ""),
  "C20-b": ("missed", "every method of a mocked service is called; a message that is the request of one RPC and the response of others must still take its declared examples"),
  "C20-a": ("missed", "example membership is checked along every path (wildcards for list elements and map values) of a response that reaches one message type several times"),
+ "C01-c": ("caught as built", ""),
+ "C02-c": ("missed by C02 (caught by C18)", "header-count corpus: services with 0-12 service-level headers whose RPCs have no method headers but different URL parameters; every URL parameter must be owned by its own operation/route (C18, C02)"),
+ "C03-c": ("missed", "versions pair: two packages declaring the same service and RPC names with different verbs/paths, generated in one invocation, alone and permuted (C03 route-depends-on-invocation, C15)"),
+ "C04-c": ("caught as built", ""),
+ "C05-c": ("missed (masked by the flatten known-finding pattern)", "sibling-pair value classes (one flattened child richer than the other) and the known-instance list: the flatten pattern absorbs only the places it was observed at"),
+ "C06-c": ("missed", "content-type dimension: requests arrive with form/plain/absent content types; responses of annotated messages must still follow the document"),
+ "C07-c": ("missed", "content-type dimension shared with C06: the wire JSON under every request content type is checked against the TS types"),
+ "C08-c": ("missed by C08 (caught by C17)", "one-client call sequence: per-call header options followed by calls without them on the same client object, for Go and TS clients"),
+ "C09-c": ("missed", "services in which an earlier method re-declares a service header and a later method does not: every method is judged against the published header types of its own operation"),
+ "C10-c": ("missed", "clients against servers whose error hook answers 400 with a body that is not a ValidationError, for the Go and the TS client"),
+ "C11-c": ("missed", "degenerate response bodies for the client robustness half: whitespace-only, lone newline, CRLF under every status"),
+ "C12-c": ("missed", "shared request messages: one request type used by several RPCs (bodiless then body verbs, two services); the whole L1 corpus is an acceptance probe"),
+ "C13-c": ("missed", "free-text cases: comment terminators, template syntax, quotes and line breaks in header descriptions/examples and proto comments; 'unparsable Go source' is a verdict"),
+ "C14-c": ("caught as built", ""),
+ "C15-c": ("caught as built", ""),
+ "C16-c": ("missed", "odd but descriptor-valid strings in every annotation slot (27 path shapes with stray/nested/adjacent braces, 25 generic texts x 13 slots); found and repaired a genuine crash on the way (empty field example, dfe72ea)"),
+ "C17-c": ("missed", "request kinds in every burst (all-default, partly default, rejected after binding, raw malformed body/URL value) and deterministic rejection->default sequences whose follow-ups are re-issued alone in a fresh process; exactly-once by call id"),
+ "C18-c": ("caught as built", ""),
+ "C19-c": ("missed", "twin package: the same message/field names with different rules in a second proto package, documents generated alone and together in both orders; twins also joined the L1 corpus (C15 single-vs-multi)"),
+ "C20-c": ("caught as built", ""),
 }
 
 rows = []
